@@ -111,7 +111,7 @@ def random_bytes(kind, r, n, maxlen=64):
 
 
 def typed_stream(kind, r, tier):
-    n = 60 if tier == "quick" else 1500
+    n = 300 if tier == "quick" else 3000
     s = header_grid(kind, r, tier)
     s += structured(kind, r, n)
     s += random_bytes(kind, r, n * 3)
@@ -192,7 +192,7 @@ def tile(r, valid=True, L=None):
 
 def compound_stream(r, tier):
     out = []
-    n = 300 if tier == "quick" else 6000
+    n = 1200 if tier == "quick" else 12000
     import itertools
     # all tilings of lengths {4,8,12} up to 4 tiles with valid/invalid flags
     for k in range(1, 5):
@@ -234,7 +234,7 @@ def compound_stream(r, tier):
 
 def fci_stream(kind, r, tier):
     out = []
-    n = 200 if tier == "quick" else 5000
+    n = 800 if tier == "quick" else 8000
     for L in range(0, 41):
         for _ in range(3 if tier == "quick" else 30):
             out.append(P(kind, gen.r_bytes(r, L)))
@@ -285,7 +285,7 @@ def rb_stream(r, tier):
     for L in range(0, 50):
         for _ in range(2):
             out.append(P("rb", gen.r_bytes(r, L)))
-    for _ in range(100 if tier == "quick" else 3000):
+    for _ in range(400 if tier == "quick" else 6000):
         out.append(P("rb", gen.enc_rb(gen.r_rb(r))))
     for cl in (0, 1, 0xff, 0x100, 0xffff, 0x10000, 0xffffff):
         for fl in (0, 0x80, 0xff):
@@ -297,7 +297,7 @@ def rb_stream(r, tier):
 def fb_fci_stream(r, tier):
     """feedback packets with every (kind, format 0..31) and arbitrary FCI bytes (C15)"""
     out = []
-    reps = 2 if tier == "quick" else 40
+    reps = 8 if tier == "quick" else 80
     for pt in (205, 206):
         kind = "tfb" if pt == 205 else "pfb"
         for fmt in range(32):
@@ -305,7 +305,7 @@ def fb_fci_stream(r, tier):
                 L = r.choice([0, 4, 8, 12, 16, 20, 24, 40])
                 fci = gen.r_bytes(r, L)
                 if fmt == 3 and L >= 4 and r.random() < 0.7:
-                    fci = bytes([r.choice([0, 7, 8, 9, 16, 24, 8 * (L - 2), 8 * (L - 2) + 8, 255, r.getrandbits(8)])]) + fci[1:]
+                    fci = bytes([min(255, r.choice([0, 7, 8, 9, 16, 24, 8 * (L - 2), 8 * (L - 2) + 8, 255, r.getrandbits(8)]))]) + fci[1:]
                 pad = r.choice([0, 0, 0, 4, 8])
                 body = struct.pack(">II", gen.r_u32(r), gen.r_u32(r)) + fci + gen.trailer(pad)
                 b = gen.hdr(pt, fmt, 4 + len(body), pad > 0) + body
@@ -343,7 +343,7 @@ def Bd(cfg, expr, **meta):
 
 def build_cfgs(kind, r, tier):
     """random + boundary configurations of one builder kind"""
-    n = {"quick": 150, "thorough": 4000}[tier]
+    n = {"quick": 600, "thorough": 8000}[tier]
     out = []
     fn = {"sr": gen.cfg_sr, "rr": gen.cfg_rr, "bye": gen.cfg_bye, "app": gen.cfg_app, "sdes": gen.cfg_sdes,
           "unknown": gen.cfg_unknown, "fb": gen.cfg_fb, "custom": gen.cfg_custom, "compound": gen.cfg_compound,
